@@ -260,9 +260,11 @@ def exhaustive(ck: Check, tier):
                         expect.append((';'.join(res_s(r) for r in results), form, [op_s(o) for o in prog], list(stored)))
         ck.sample({'form': expect[100][1], 'program': expect[100][2], 'object': expect[100][3], 'impl_results': expect[100][0]})
         mo = _driver(lines)
+        ck.disagreements = getattr(ck, 'disagreements', [])
         for m, (e, form, prog, st) in zip(mo, expect):
             if m != e:
                 ndis += 1
+                ck.disagreements.append((form, st, prog))
                 if ndis <= 3:
                     ck.notes.append(f'stream model disagreement form={form} prog={prog} object={st}: impl={e[:100]} model={m[:100]}')
         ck.cov['model_programs'] = len(lines)
@@ -390,6 +392,54 @@ def zlib_assumptions(ck: Check, tier):
                   'eof <-> all produced, truncated stream never eof)', bad == 0, f'{bad} law violations in {n} streams', kind='assumption')
 
 
+def extended_search(ck):
+    """a model/implementation disagreement is not yet a violation: extend the disagreeing programs by every further operation
+    (and by every pair, within a budget) and judge them against io.BytesIO"""
+    def search(broken):
+        dis = getattr(ck, 'disagreements', [])
+        if not dis:
+            return None
+        root = common.scratch_root()
+        contents = sorted({bytes(st)[1:] if False else bytes(st) for _, st, _ in dis}, key=len)
+        forms = Forms(root, [bytes(range(48, 48 + n)) for n in range(0, 6)])
+        try:
+            budget = 40000
+            for form, st, prog in dis:
+                stored = bytes(st)
+                base = stored[1:] if form.startswith(('zsd', 'cb_zsd', 'loose')) else stored
+                try:
+                    key, stored2 = forms.key_for(form, base)
+                except KeyError:
+                    continue
+                ops = gen_ops(len(stored2))
+                parsed = []
+                for o in prog:
+                    if o == 't':
+                        parsed.append(('t',))
+                    elif o[0] == 'r':
+                        parsed.append(('r', int(o[1:])))
+                    else:
+                        t, w = o[1:].split(':')
+                        parsed.append(('s', int(t), int(w)))
+                chunk = 3 if 'zsd' in form else None
+                cands = [parsed + [a] for a in ops] + [parsed + [a, b] for a in ops[:12] for b in ops[:12]] + [[a] + parsed + [b] for a in ops[:8] for b in ops[:8]]
+                for cand in cands:
+                    budget -= 1
+                    if budget < 0:
+                        return None
+                    results, _ = run_program(forms, form, key, cand, chunk=chunk)
+                    bad = judge(stored2, cand, results, allow_notimpl=(form == 'zsd_nolazy'))
+                    if bad:
+                        return (f'{form} stream over a {len(stored2)}-byte object deviates from an in-memory file: {bad} (found by extending a program on which '
+                                f'the implementation and the Coq model disagree)',
+                                {'kind': 'stream-program', 'form': form, 'content': list(stored2), 'program': [op_s(o) for o in cand],
+                                 'results': [res_s(r)[:80] for r in results]})
+        finally:
+            forms.close()
+        return None
+    return search
+
+
 def main(tier, seed, replay=None):
     ck = Check('C07', tier, seed)
     ck.cov['rule'] = ('exhaustive: every program of length <= 2 (thorough: plus 6000 random of length 3 per object) over read n in {-1,0,1,2,5}, '
@@ -413,4 +463,4 @@ def main(tier, seed, replay=None):
     ck.assumptions += ['in-range = the seek target resolves inside [0, len]; out-of-range seeks may raise or clamp, later operations must then '
                        'agree with an in-memory file at the old / returned position',
                        'zlib decisions (bytes per decompress call, stalls) are recorded from the run and given to the model as oracle']
-    return ck.finish()
+    return ck.finish(search=extended_search(ck))
